@@ -937,6 +937,15 @@ class ConstraintChain:
         """
         self.constraints = constraints
 
+    def __repr__(self) -> str:
+        """Content-based representation.
+
+        The default object repr embeds the memory address, which leaks into
+        every str() of a value holding a chain (routing value hashes, ejected
+        output) and makes those results differ from process to process.
+        """
+        return f"ConstraintChain({self.constraints!r})"
+
     @classmethod
     def _split_parts(cls, constraint_str: str) -> list[str]:
         """Split a constraint string into individual constraint tokens.
